@@ -419,6 +419,48 @@ def _field_worker(args):
     return acc.result()
 
 
+def _magic_worker(ti):
+    """The code-point octets of field_table() under every input that carries a constant the library itself compares
+    input against (bytefam.magic_constants: the RFC 8446 HelloRetryRequest random, the downgrade sentinels) at every
+    offset of the seed and of the other messages of its layer: whatever else the message says, a value that is
+    accepted at the position re-composes as itself."""
+    from mc import bytefam, layers
+    acc = core.Acc()
+    label, cls, seed, off, width, order, en, free = field_table()[ti]
+    doc = classes.documented_errors()
+    seeds = [seed]
+    if label.startswith('handshake.type') and label.endswith('(variant)'):
+        seeds += [b for _, b in layers.handshake_messages() if b != seed]
+    mask = {'COTPConnectionRequest@1': 0xf0, 'OpenVpnPacketVariant@0': 0xf8}.get(label)
+    n_in = 0
+    for sd in seeds:
+        if len(sd) > 600:
+            continue
+        for tag, b in bytefam.i12_magic(sd):
+            acc.counters['transitions'] = acc.counters.get('transitions', 0) + 1
+            n_in += 1
+            try:
+                obj, n = cls.parse_immutable(b)
+                back = bytes(obj.compose())
+            except Exception:  # noqa  (C02 / C05)
+                continue
+            if n != len(b):
+                continue
+            got, sent = back[off:off + width], b[off:off + width]
+            if mask is not None:
+                got, sent = bytes((got[0] & mask,)) if got else got, bytes((sent[0] & mask,))
+            if got != sent:
+                acc.violation('field:%s:remapped_under_constant' % label,
+                              'value %s at %s re-composes as %s when the message carries %s at offset %d'
+                              % (sent.hex(), label, got.hex(), tag[1], tag[2]),
+                              {'kind': 'magic', 'field': label, 'data': b, 'constant': tag[1], 'offset': tag[2]})
+            acc.state(core.h64('magic', label, b))
+    if ti == 0:
+        acc.sample({'kind': 'magic', 'constants': [n for n, _ in bytefam.magic_constants()]}, 1)
+    acc.count('magic_inputs', n_in)
+    return acc.result()
+
+
 # ---- string-coded enumerations -----------------------------------------------------------------------------
 def _string_worker(_):
     acc = core.Acc()
@@ -580,6 +622,7 @@ def run(ctx):
     ctx.pmap(_history_worker, [(a, b, thorough) for a in range(nv) for b in range(nv) if a != b], fresh=True)
     ctx.pmap(_hello_worker, [(p, 16, thorough) for p in range(16)])
     ctx.pmap(_field_worker, [(i, thorough) for i in range(len(field_table()))])
+    ctx.pmap(_magic_worker, list(range(len(field_table()))))
     ctx.assumptions += [
         'cryptodatahub enumeration tables are data (trusted base); the no-alias clause is still evaluated on them',
         'RFC 8701 GREASE sets: 0x?a?a (two-byte) and 0x0b+0x1f*k (one-byte)',
@@ -591,7 +634,8 @@ def run(ctx):
                            'code c in A, then the full oracle for c in B; c over 0..255, both tables and GREASE - the '
                            'whole common space in the thorough tier); '
                            'cipher-suite codes inside a client hello composed three times; 3-byte space (<=2 non-zero bytes quick, all 2^24 thorough); IntEnum-typed fields '
-                           'substituted in place over their whole space; every member (and case spelling, prefix '
+                           'substituted in place over their whole space, and under every library-defined constant spliced at every '
+                           'offset; every member (and case spelling, prefix '
                            'pair) of every string-coded enumeration; static no-alias clause over every enumeration')
 
 
@@ -637,6 +681,15 @@ def replay(ctx, w):
                     if v['witness']['code'] == w['code']:
                         return v
                 return res[1][0] if res[1] else None
+    if k == 'magic':
+        for ti, row in enumerate(field_table()):
+            if row[0] == w['field']:
+                res = _magic_worker(ti)
+                for v in res[1]:
+                    if v['witness']['constant'] == w['constant']:
+                        return v
+                return res[1][0] if res[1] else None
+        return None
     res = _string_worker(0)
     for v in res[1]:
         if v['witness'] == w:
